@@ -360,6 +360,7 @@ func rulesC09(p *Prog, r *Report) {
 		r.Unknown("K0b", "scanner-keywords", "-", kerr.Error())
 	} else {
 		ruleKeywordPrefix(p, r, t, kw.All(), "K0b")
+		ruleIDClassCaseClosed(p, r, t, kw.IDPattern, "K0c")
 	}
 
 	r.Rule("K2", "necessary", 3, "only list spelling reaches tokens and nodes: license/exception tokens take their value from the lookup's string result under the lookup's success; license and exception fields of nodes take their values from token values only")
